@@ -35,6 +35,7 @@ Fifth round: C06.2 the setter of the utilisation cap stores a given value whatev
 Sixth round: C06.2 the accumulated demand of both generators grows by the demand of the current instance once per iteration and is never taken back, and the utilisation after an instance is carried to the next one on every path; C06.5 load_app hands every instance, new or known, to Cell.add_app with the allocation find_assignment returned.
 Seventh round: C06.7 assignments are filed and looked up under the same key expression (subscript, .get and `in` forms alike), and an event of the watch batch is dispatched whenever its resource has a handler - nothing else decides.
 Eighth round: C06.5 the routine that schedules a partition hands its queue to the placement loop on every path (no fast path before it); C06.7 the pattern compiled for an assignment is the recorded pattern followed by '#' and ten digits.
+Ninth round: C06.2 every utilisation of the private generator is computed against self.reserved (the total reservation belongs to the merged queue).
 Does NOT decide rank monotonicity and per-allocation order through the
 recursive re-scored merge (numeric, depends on the whole tree) - the larger
 half of the property.
